@@ -10,6 +10,8 @@ STRINGS = [
     "a comment", "mV", "ms**-1", "pA*pF**-1", "1/0", "9**9**9", "x = 3", "states(q=1)", "parameters(p=5)", "'", '"',
     "it's", "(", ")", "[1]", "{}", "µV ≠ Ω", "#", "## double", "dx_dt = 0", "expressions(\"Z\")", "1", "0", "meter",
     "second", "-", "**", "a = b = c", "ScalarParam(1)", "Conditional(Lt(x, 1), 1, 0)",
+    # text that LOOKS like a unit expression but that the unit registry treats specially
+    "1/degC", "degC*ms", "dB/ms", "degF**2", "1/ms/degC", "pH*mV",
 ]
 
 
